@@ -38,10 +38,20 @@ const DT_ANY: [&str; 2] = ["bool", "str"];                                      
 /// hidden-state value classes (only in the part-2 streams): the `i64` / `f64` values of the same seed REVERSED (same multiset,
 /// same sum / xor / product), or with ONE element moved by one (i64) / by one ulp (f64)
 const DT_HID: [&str; 4] = ["i64r", "i64n", "f64r", "f64n"];
+/// part 3, value classes "related in a way random data never is" and the giant-array classes (only in the part-3 streams):
+/// `f64z` every element is a zero, `0.0` and `-0.0` mixed (all `==`, not bit-identical); `f64c` / `i64c` a CONSTANT array (the
+/// constant rotates with the seed: 0, -0.0, 1, -1, 0.1, NaN, inf, MAX, MIN, 2^53+1 ...); `f64e` groups of values that are `==` or
+/// neighbours by one ulp; `i64g` / `f64g` near-distinct scrambled integers (every lane has its own extreme, sum, sign pattern and
+/// zero count — a lane read from the wrong offsets is visible in every operation; no long runs of equal values, on which the
+/// crate's 1-D argmax / argmin are quadratic)
+const DT_P3: [&str; 6] = ["f64z", "f64c", "i64c", "f64e", "i64g", "f64g"];
+/// part 3, element LAYOUT (count family, `T: ArrayElement`): 12-byte `Tuple3<i32,i32,i32>`, 3-byte `Tuple3<u8,u8,u8>`, 32-byte
+/// non-`Copy` `Tuple2<String,i32>`; `strl`: strings that share a stem of 32 / 33 / 64 / 65 / 1024 bytes before the first difference
+const DT_LAY: [&str; 4] = ["t3", "t3b", "tw", "strl"];
 fn applicable(op: &str, dt: &str) -> bool {
-    if DT_OPS.contains(&dt) || DT_HID.contains(&dt) { return true; }
+    if DT_OPS.contains(&dt) || DT_HID.contains(&dt) || DT_P3.contains(&dt) { return true; }
     if DT_NUM.contains(&dt) { return EXTREME.contains(&op) || COUNT.contains(&op); }
-    DT_ANY.contains(&dt) && COUNT.contains(&op)
+    (DT_ANY.contains(&dt) || DT_LAY.contains(&dt)) && COUNT.contains(&op)
 }
 fn all_dtypes() -> Vec<&'static str> { DT_OPS.iter().chain(DT_NUM.iter()).chain(DT_ANY.iter()).copied().collect() }
 
@@ -127,6 +137,44 @@ fn vals_flt(n: usize, vseed: u64, single: bool) -> Vec<f64> {
     v
 }
 
+/// part 3: a 64-bit mixer (position, seed) -> pseudo-random word; the giant arrays are filled from it position by position
+fn mix(i: u64, seed: u64) -> u64 {
+    let mut z = i.wrapping_add(seed.wrapping_mul(0xD1B54A32D192ED03)).wrapping_mul(0x9E3779B97F4A7C15);
+    z = (z ^ (z >> 30)).wrapping_mul(0xBF58476D1CE4E5B9);
+    z = (z ^ (z >> 27)).wrapping_mul(0x94D049BB133111EB);
+    z ^ (z >> 31)
+}
+/// `i64g` / `f64g`: integers (as f64: integer-valued, so that sums and products are exact in any order).  Products: +-1 by a hash
+/// bit and twelve planted factors 2 / 3 / -2 / -3 (|product| <= 6^6); count_nonzero: -1 / 0 / 1; otherwise `hash % 4n - 2n`
+/// (near-distinct: |sum| <= 2 n^2 < 2^44 for n <= 2.2 million)
+fn vals_giant(n: usize, vseed: u64, op: &str) -> Vec<i64> {
+    if op.contains("prod") {
+        let mut v: Vec<i64> = (0..n).map(|i| if mix(i as u64, vseed) & 4 == 0 { 1 } else { -1 }).collect();
+        if n > 0 { for t in 0..12u64 { let p = (mix(n as u64 + t, vseed) % n as u64) as usize; v[p] = [2, 3, -2, -3][t as usize % 4]; } }
+        return v;
+    }
+    if op == "count_nonzero" { return (0..n).map(|i| (mix(i as u64, vseed) % 3) as i64 - 1).collect(); }
+    let m = 4 * n.max(1) as u64;
+    (0..n).map(|i| (mix(i as u64, vseed) % m) as i64 - 2 * n as i64).collect()
+}
+/// constants of the `i64c` / `f64c` classes
+fn const_i64(vseed: u64) -> i64 { [0, 1, -1, 7, i64::MAX, i64::MIN, (1 << 53) + 1, 2][vseed as usize % 8] }
+fn const_f64(vseed: u64) -> f64 { [0.0, -0.0, 1.0, -1.0, 0.1, f64::NAN, f64::INFINITY, f64::MAX, f64::NEG_INFINITY, 5e-324, 3.0, -f64::MAX][vseed as usize % 12] }
+/// sums / products of a constant array must stay inside i64 (the harness is built with overflow checks)
+fn const_i64_for(vseed: u64, n: usize, op: &str) -> i64 {
+    let c = const_i64(vseed);
+    if (FOLD.contains(&op) || SCAN.contains(&op)) && c.unsigned_abs() > 8 { return [2, -2, 3, 1][vseed as usize % 4].min(if op.contains("prod") && n > 38 { 1 } else { 3 }); }
+    if op.contains("prod") && n > 20 && c.abs() > 1 { return -1; }
+    c
+}
+/// `f64e`: a few groups of values that are `==` (0.0 / -0.0) or neighbours by one ulp (1.0, 1.0 + ulp, 1.0 - ulp/2; 0.1 + 0.2 and 0.3)
+fn vals_f64e(n: usize, vseed: u64) -> Vec<f64> {
+    let g: [f64; 10] = [0.0, -0.0, 1.0, f64::from_bits(1.0f64.to_bits() + 1), f64::from_bits(1.0f64.to_bits() - 1), 0.1 + 0.2, 0.3, -1.0, f64::from_bits((-1.0f64).to_bits() + 1), 5e-324];
+    let mut r = Rng::new(vseed ^ 0xE0E0);
+    let base = (vseed % 4) as usize * 2;
+    (0..n).map(|_| if r.below(5) == 0 { g[r.below(10)] } else { g[(base + r.below(3)) % 10] }).collect()
+}
+
 /// what the two oracles need to know about an element type
 trait Val: ArrayElement + Clone + std::fmt::Display + PartialOrd + 'static {
     const LO: i128 = 0; const HI: i128 = 1; const FLOAT: bool = false; const SINGLE: bool = false;
@@ -139,6 +187,10 @@ trait Val: ArrayElement + Clone + std::fmt::Display + PartialOrd + 'static {
     fn zero_like(&self) -> Option<bool> { None }
     fn of_int(i: i128) -> Self;
     fn of_f64(_x: f64) -> Self { Self::of_int(0) }
+    /// the value of a float element
+    fn as_f64(&self) -> Option<f64> { None }
+    /// `strl`: a string with a long stem (other types: `of_int`)
+    fn of_stem(i: i128, _vseed: u64) -> Self { Self::of_int(i) }
 }
 macro_rules! val_int { ($($t:ty),*) => { $(impl Val for $t {
     const LO: i128 = <$t>::MIN as i128; const HI: i128 = <$t>::MAX as i128;
@@ -154,6 +206,7 @@ impl Val for f64 {
     fn zero_like(&self) -> Option<bool> { Some(*self == 0.0) }
     fn of_int(i: i128) -> Self { i as f64 }
     fn of_f64(x: f64) -> Self { x }
+    fn as_f64(&self) -> Option<f64> { Some(*self) }
 }
 impl Val for f32 {
     const FLOAT: bool = true; const SINGLE: bool = true;
@@ -162,6 +215,7 @@ impl Val for f32 {
     fn zero_like(&self) -> Option<bool> { Some(*self == 0.0) }
     fn of_int(i: i128) -> Self { i as f32 }
     fn of_f64(x: f64) -> Self { x as f32 }
+    fn as_f64(&self) -> Option<f64> { Some(*self as f64) }
 }
 impl Val for bool {
     fn zero_like(&self) -> Option<bool> { Some(!*self) }
@@ -169,10 +223,39 @@ impl Val for bool {
 }
 impl Val for String {
     fn of_int(i: i128) -> Self { ["", "0", "a", "ab", "b", "zz", "Z", "0", "zz", "10", "1", "a"][i.rem_euclid(12) as usize].to_string() }
+    fn of_stem(i: i128, vseed: u64) -> Self { stem_string(i, vseed) }
+}
+
+/// odd layouts (part 3): few distinct values (ties, zeros), the components disagree about the order
+impl Val for T3 {
+    fn zero_like(&self) -> Option<bool> { Some(self.0 == 0 && self.1 == 0 && self.2 == 0) }
+    fn of_int(i: i128) -> Self { let k = i.rem_euclid(12) as i32; Tuple3(k % 3 - 1, 1 - (k / 3) % 2, if k >= 6 { 0 } else { k % 2 }) }
+}
+impl Val for T3b {
+    fn zero_like(&self) -> Option<bool> { Some(self.0 == 0 && self.1 == 0 && self.2 == 0) }
+    fn of_int(i: i128) -> Self { let k = i.rem_euclid(12) as u8; Tuple3(k % 3 * 127, 255 * ((k / 3) % 2), if k >= 6 { 0 } else { 254 + k % 2 }) }
+}
+impl Val for TW {
+    fn of_int(i: i128) -> Self { let k = i.rem_euclid(12) as i32; Tuple2(["", "0", "a", "ab"][(k % 4) as usize].to_string(), k / 4 - 1) }
+}
+/// strings with a long common stem: 32 / 33 / 64 / 65 / 1024 bytes before the first difference
+fn stem_string(i: i128, vseed: u64) -> String {
+    let stem = [32usize, 33, 64, 65, 1024][vseed as usize % 5];
+    let tail = ["", "a", "b", "ab", "a", "b", "", "0", "ba", "b", "aa", "a"][i.rem_euclid(12) as usize];
+    if i.rem_euclid(12) == 7 && vseed % 2 == 0 { return "0".to_string(); }
+    format!("{}{}", "x".repeat(stem), tail)
 }
 
 fn gen_vals<T: Val>(dt: &str, n: usize, vseed: u64, op: &str) -> Vec<T> {
     match dt {
+        "i64g" => vals_giant(n, vseed, op).into_iter().map(|x| T::of_int(x as i128)).collect(),
+        "f64g" => { let z = vseed % 2 == 0; vals_giant(n, vseed, op).into_iter().map(|x| if x == 0 && z { T::of_f64(-0.0) } else { T::of_f64(x as f64) }).collect() }
+        "f64z" => { let mut r = Rng::new(vseed ^ 0x2E20); (0..n).map(|i| T::of_f64(match vseed % 4 { 0 => if r.below(2) == 0 { 0.0 } else { -0.0 }, 1 => if i == 0 { 0.0 } else { -0.0 }, 2 => if i == 0 { -0.0 } else { 0.0 }, _ => if i % 2 == 0 { -0.0 } else { 0.0 } })).collect() }
+        "f64c" => (0..n).map(|_| T::of_f64(const_f64(vseed))).collect(),
+        "i64c" => (0..n).map(|_| T::of_int(const_i64_for(vseed, n, op) as i128)).collect(),
+        "f64e" => vals_f64e(n, vseed).into_iter().map(T::of_f64).collect(),
+        "strl" => { let mut r = Rng::new(vseed ^ 0x57E); (0..n).map(|_| T::of_stem(r.below(12) as i128, vseed)).collect() }
+        "t3" | "t3b" | "tw" => { let mut r = Rng::new(vseed ^ 0x7A7); let c = vseed % 5 == 0; (0..n).map(|_| T::of_int(if c { vseed as i128 } else { r.below(12) as i128 })).collect() }
         "i64" => vals_i64(n, vseed, op.contains("prod")).into_iter().map(|x| T::of_int(x as i128)).collect(),
         "f64" => vals_f64(n, vseed).into_iter().map(T::of_f64).collect(),
         "i64r" => vals_i64(n, vseed, op.contains("prod")).into_iter().rev().map(|x| T::of_int(x as i128)).collect(),
@@ -492,8 +575,99 @@ fn gen_part2(thorough: bool, rng: &mut Rng, out: &mut dyn FnMut(String)) {
             }
         }
     } }
+    gen_part3(thorough, rng, out);
     // the last line of a run: how many times the native reference was compared with the model / used in its place
     out("refstats".to_string());
+}
+
+// ---------------------------------------------------------------- gen, part 3 (after the fourth round of seeded changes)
+
+/// giant arrays (2^20 elements and a little below / above, up to 2.1 million): shape, axes.  The crate's `apply_along_axis` copies
+/// the whole buffer once per lane, so only axes that leave FEW lanes are affordable: (a) a handful of lanes — first, middle and last
+/// axis of ranks 1..4, extents that are / are not multiples of 64, exactly 2^20 elements, 8 elements below, the `giant_shapes()`
+/// of lib.rs; (b) thorough: about a thousand lanes.
+fn giant_configs(thorough: bool) -> Vec<(Vec<usize>, Vec<&'static str>)> {
+    let mut g: Vec<(Vec<usize>, Vec<&'static str>)> = vec![
+        (vec![2, 131_073, 4], vec!["1", "-2"]),           // middle axis, 8 lanes
+        (vec![2, 131_072, 4], vec!["1"]),                 // exactly 2^20 elements, every extent a power of two
+        (vec![2, 131_071, 4], vec!["-2"]),                // 8 elements below 2^20
+        (vec![3, 400_001], vec!["1"]), (vec![400_001, 3], vec!["0"]),
+        (vec![2, 3, 174_763], vec!["2"]), (vec![174_763, 3, 2], vec!["-3"]),
+        (vec![5, 70_000, 4], vec!["1"]),
+        (vec![2, 2, 65_537, 4], vec!["2"]), (vec![2, 65_537, 2, 4], vec!["-3"]),       // rank 4, two axes in front / behind
+        (vec![1 << 20 | 5], vec!["0", "none"]),
+        (vec![64, 128, 128], vec!["none"]),               // 2^20 elements, flattened form
+    ];
+    if thorough {
+        g.extend([
+            (vec![2, 131_073, 4], vec!["none"]), (vec![3, 349_526], vec!["-1"]), (vec![349_526, 3], vec!["-2"]), (vec![2_097_153], vec!["-1", "none"]),
+            (vec![4, 65_536, 4], vec!["1"]), (vec![3, 64, 5462], vec!["-1"]), (vec![3, 5462, 64], vec!["1"]), (vec![2, 1, 131_075, 2, 2], vec!["2", "-3"]),
+            (vec![1, 1_048_577], vec!["1", "0"]), (vec![1_048_577, 1], vec!["0"]), (vec![7, 149_797], vec!["1"]), (vec![2, 2, 2, 131_073], vec!["3"]),
+            (vec![131_073, 2, 2, 2], vec!["0"]), (vec![1031, 1033], vec!["0", "1"]), (vec![600, 2, 1000], vec!["2", "0"]), (vec![2, 524_289], vec!["-1"]),
+        ]);
+    }
+    g
+}
+
+fn gen_part3(thorough: bool, rng: &mut Rng, out: &mut dyn FnMut(String)) {
+    let kd_all = ["none", "true", "false"];
+    let ops: Vec<&str> = REDUCE.iter().chain(COUNT.iter()).chain(SCAN.iter()).copied().collect();
+    // ---- (13) values related in a way random data never is: all-zero arrays mixing 0.0 and -0.0, constant arrays (the constant
+    //      rotates: 0, -0.0, 1, 0.1, NaN, inf, MAX, MIN, 2^53+1 ...), values that are `==` / one ulp apart; (12) element layout:
+    //      12-byte / 3-byte / 32-byte non-Copy tuples and strings sharing a stem of 32..1024 bytes through the count family.
+    //      Every operation x every axis spelling (and none) on a few shapes; both oracles + the bit-exact lane oracle as ever.
+    let mut rshapes = vec![vec![5usize], vec![2, 3], vec![3, 2], vec![2, 3, 2], vec![3, 1, 4], vec![17], vec![4, 16], vec![2, 2, 2, 2]];
+    if thorough { rshapes.extend([vec![1, 7], vec![9, 9], vec![2, 3, 4, 2], vec![64], vec![3, 33]]); }
+    let mut k = 0u64;
+    for s in &rshapes {
+        for op in &ops { for ax in &axes_of(s.len() as isize) { for dt in ["f64z", "f64c", "i64c", "f64e", "t3", "t3b", "tw", "strl"] {
+            if !applicable(op, dt) { continue; }
+            k += 1;
+            let kds: Vec<&str> = if COUNT.contains(op) { if thorough { kd_all.to_vec() } else { vec![kd_all[(k % 3) as usize]] } } else { vec!["none"] };
+            let reps = if thorough { 3 } else { 1 };
+            for kd in kds { for r in 0..reps { out(format!("{op} {dt} {} {ax} {kd} {}", tag(s), (rng.next() % 500) * 60 + (k + r * 7) % 60)); } }
+        } } }
+    }
+    //      ... and on lanes longer than 4096 (extreme / position / count queries: every element a candidate)
+    for (s, ax) in [(vec![4100usize], "none"), (vec![2, 4100], "1"), (vec![4100, 2], "-2")] {
+        for op in ["max", "min", "nanmax", "amin", "count_nonzero", "sum", "cumsum"] { for dt in ["f64z", "f64c", "i64c"] {
+            k += 1; out(format!("{op} {dt} {} {ax} {} {}", tag(&s), if op == "count_nonzero" { "true" } else { "none" }, k));
+        } }
+    }
+    // ---- (15) axis values whose narrowed / wrapped image is a valid axis: a + 2^8, a + 2^16, a + 2^32, a - 2^8 ..., the ends of isize
+    for s in [vec![2usize, 3], vec![3, 2, 2], vec![4], vec![2, 1, 3, 2]] {
+        let nd = s.len() as isize;
+        let mut bad: Vec<isize> = vec![isize::MAX, isize::MIN, isize::MIN + nd, isize::MIN + nd - 1, isize::MAX - nd + 1, -(1isize << 32), 1isize << 32, 1 << 62, -(1 << 62)];
+        for a in 0..nd { for img in narrowing_images(a as usize) { bad.push(img as isize); bad.push(a - nd - (img as isize - a)); } bad.push(a + (1 << 31)); bad.push(a + (1 << 63 - 1) / 2); }
+        for (i, b) in bad.iter().enumerate() {
+            let op = ops[(i + s.len() * 5) % ops.len()];
+            let kd = if COUNT.contains(&op) { kd_all[i % 3] } else { "none" };
+            out(format!("{op} {} {} {b} {kd} {}", ["i64", "f64", "u8"][i % 3].replace("u8", if COUNT.contains(&op) || EXTREME.contains(&op) { "u8" } else { "i32" }), tag(&s), rng.next() % 3000));
+            // ... directly followed by a valid call
+            out(format!("{op} i64 {} {} {kd} {}", tag(&s), (i as isize) % nd - if i % 2 == 0 { 0 } else { nd }, rng.next() % 3000));
+        }
+    }
+    // ---- (11) giant arrays: native reference cases judged in place.  Element types: near-distinct scrambled integers as i64 / f64
+    //      (`i64g` / `f64g`: every lane has its own sum, extreme, sign pattern and zero count), small-range i64 / u8 / bool for the count.
+    //      Quick: two operations (of different families, rotating so that all 17 occur) per configuration; thorough: every operation.
+    let (mut j, mut ci) = (0usize, 0usize);
+    for (s, axes) in giant_configs(thorough) { for ax in axes {
+        let picks: Vec<&str> = if thorough { let mut v = ops.clone(); if ax == "none" { v.retain(|o| !SCAN.contains(o) || *o == "cumsum"); } v } else {
+            ci += 1;
+            let other: Vec<&str> = COUNT.iter().chain(SCAN.iter()).copied().collect();
+            vec![REDUCE[(ci * 3) % 10], other[(ci * 2) % 7]]
+        };
+        for op in picks {
+            j += 1;
+            let dt = if op == "count_nonzero" { ["i64g", "u8", "f64g", "bool"][j % 4] } else { ["i64g", "f64g"][(j + ci) % 2] };
+            let kd = if COUNT.contains(&op) { kd_all[j % 3] } else { "none" };
+            let kd = if ax == "none" && s.len() > 3 && kd == "true" { "false" } else { kd };
+            out(format!("{op} {dt} {} {ax} {kd} {} ref", tag(&s), rng.next() % 30000));
+        }
+    } }
+    // a refused axis on a giant array, then a valid call
+    out(format!("sum i64g {} 3 none 1 ref", tag(&[2, 131_073, 4])));
+    out(format!("sum i64g {} -1 none 1 ref", tag(&[3, 349_526])));
 }
 
 // ---------------------------------------------------------------- exec
@@ -524,52 +698,54 @@ fn parse_lanes(s: &str, scan: bool) -> Option<LaneMap> {
     Some(LaneMap { shape, outs, lanes })
 }
 
-/// NATIVE LANE-MEMBERSHIP REFERENCE: which input positions (row-major) form the lane behind every output position, and the result
-/// shape, by plain coordinate arithmetic.  `fam`: 'R' reduction, 'C' count / position query (keepdims), 'S' scan.
+/// NATIVE LANE-MEMBERSHIP REFERENCE in closed form: the result shape and, by plain coordinate arithmetic, which input positions
+/// (row-major) form lane `q` and which (position inside the lane, lane) stands behind output position `p`.  Lane `q = o * inner + i`
+/// (`o` the index over the axes in front of the reduced axis, `i` over those behind it) — that is also the order in which the
+/// lanes first occur in the output.  `materialize` writes the same thing out as a `LaneMap`; THAT is what is compared with the
+/// model on every ordinary case, so the two views (`pos` / `out_of`) used lazily on the giant cases are exactly the validated ones.
+struct Strided { shape: Vec<usize>, outer: usize, len: usize, inner: usize, scan: bool }
+impl Strided {
+    fn lanes(&self) -> usize { self.outer * self.inner }
+    /// input position of element `j` of lane `q`
+    fn pos(&self, q: usize, j: usize) -> usize { q / self.inner * self.len * self.inner + j * self.inner + q % self.inner }
+    fn n_out(&self) -> usize { if self.scan { self.outer * self.len * self.inner } else { self.lanes() } }
+    /// output position -> (position inside the lane, lane)
+    fn out_of(&self, p: usize) -> (usize, usize) { if self.scan { (p / self.inner % self.len, p / (self.len * self.inner) * self.inner + p % self.inner) } else { (0, p) } }
+    fn materialize(&self) -> LaneMap {
+        LaneMap { shape: self.shape.clone(), outs: (0..self.n_out()).map(|p| self.out_of(p)).collect(),
+                  lanes: (0..self.lanes()).map(|q| (0..self.len).map(|j| self.pos(q, j)).collect()).collect() }
+    }
+}
+/// `fam`: 'R' reduction, 'C' count / position query (keepdims), 'S' scan.
 /// `None`: no reference (zero-size arrays are left to the model);  `Some(Err(()))`: an error value (the axis is outside the rank; `keepdims` on the flattened form of an array of rank > 3).
-fn native_map(shape: &[usize], axis: Option<isize>, kd: Option<bool>, fam: char) -> Option<Result<LaneMap, ()>> {
+fn native_strided(shape: &[usize], axis: Option<isize>, kd: Option<bool>, fam: char) -> Option<Result<Strided, ()>> {
     let n: usize = shape.iter().product();
     let nd = shape.len();
     if n == 0 || nd == 0 { return None; }
     let Some(ax) = axis else {
         // the flattened form: one lane = the whole array
-        let all: Vec<usize> = (0..n).collect();
-        return Some(Ok(match fam {
-            'S' => LaneMap { shape: vec![n], outs: (0..n).map(|j| (j, 0)).collect(), lanes: vec![all] },
+        let sh = match fam {
+            'S' => vec![n],
             // `atleast(ndim)` refuses more than three dimensions
             'C' if kd == Some(true) && nd > 3 => return Some(Err(())),
-            'C' if kd == Some(true) => LaneMap { shape: vec![1; nd], outs: vec![(0, 0)], lanes: vec![all] },
-            _ => LaneMap { shape: vec![1], outs: vec![(0, 0)], lanes: vec![all] },
-        }));
+            'C' if kd == Some(true) => vec![1; nd],
+            _ => vec![1],
+        };
+        return Some(Ok(Strided { shape: sh, outer: 1, len: n, inner: 1, scan: fam == 'S' }));
     };
-    let k = if ax < 0 { ax + nd as isize } else { ax };
+    let k = if ax < 0 { ax.checked_add(nd as isize)? } else { ax };
     if k < 0 || k >= nd as isize { return Some(Err(())); }
     let k = k as usize;
-    let len = shape[k];
     let inner: usize = shape[k + 1..].iter().product();          // distance between two neighbours of a lane
     let outer: usize = shape[..k].iter().product();
-    // lane (o, i): positions o*len*inner + j*inner + i, j = 0..len
-    let lane = |o: usize, i: usize| -> Vec<usize> { (0..len).map(|j| o * len * inner + j * inner + i).collect() };
-    Some(Ok(if fam == 'S' {
-        // shape kept; position p = (o, j, i)
-        let mut lanes = Vec::with_capacity(outer * inner);
-        let mut id_of = vec![usize::MAX; outer * inner];
-        let mut outs = Vec::with_capacity(n);
-        for p in 0..n {
-            let (o, j, i) = (p / (len * inner), p / inner % len, p % inner);
-            let key = o * inner + i;
-            if id_of[key] == usize::MAX { id_of[key] = lanes.len(); lanes.push(lane(o, i)); }
-            outs.push((j, id_of[key]));
-        }
-        LaneMap { shape: shape.to_vec(), outs, lanes }
-    } else {
-        let mut sh = shape.to_vec();
-        if fam == 'C' { if kd == Some(true) { sh[k] = 1; } else { sh.remove(k); } }
-        else if nd > 1 { sh.remove(k); } else { sh = vec![1]; }
-        let mut lanes = Vec::with_capacity(outer * inner);
-        for o in 0..outer { for i in 0..inner { lanes.push(lane(o, i)); } }
-        LaneMap { shape: sh, outs: (0..outer * inner).map(|q| (0, q)).collect(), lanes }
-    }))
+    let mut sh = shape.to_vec();
+    if fam == 'S' { }
+    else if fam == 'C' { if kd == Some(true) { sh[k] = 1; } else { sh.remove(k); } }
+    else if nd > 1 { sh.remove(k); } else { sh = vec![1]; }
+    Some(Ok(Strided { shape: sh, outer, len: shape[k], inner, scan: fam == 'S' }))
+}
+fn native_map(shape: &[usize], axis: Option<isize>, kd: Option<bool>, fam: char) -> Option<Result<LaneMap, ()>> {
+    native_strided(shape, axis, kd, fam).map(|r| r.map(|s| s.materialize()))
 }
 
 thread_local! {
@@ -653,11 +829,110 @@ fn judge<T: Val, R: Val>(vals: &[T], observed: &Result<Array<R>, ArrayError>, ex
     Verdict::Match(obs_text)
 }
 
+/// first entries of a long list (a giant lane is never written out)
+fn brief<X: std::fmt::Display>(v: &[X]) -> String {
+    if v.len() <= 10 { show_list(v) } else { format!("{},… ({} entries, last {})", show_list(&v[..8]), v.len(), v[v.len() - 1]) }
+}
+fn brief_out<R: Val>(r: &Result<Array<R>, ArrayError>) -> String {
+    show_res(r, |a| { let (sh, n) = (a.get_shape().unwrap(), a.len().unwrap()); if n <= 24 { format!("{}:{}", show_list(&sh), show_list(&a.get_elements().unwrap())) } else { format!("{}:<{n} elements, judged in place>", show_list(&sh)) } })
+}
+
+/// IN-PLACE JUDGE (giant arrays; in shadow mode also on a share of the ordinary cases): the same three checks as `judge` — result
+/// shape, lane oracle (the real 1-D operation on the gathered lane, bit-exact), native value oracle — but lane by lane through the
+/// closed form of the native lane reference, without a materialised lane map and without printing the arrays; reports the first
+/// differing output position only.
+fn judge_big<T: Val, R: Val>(vals: &[T], observed: &Result<Array<R>, ArrayError>, st: &Strided,
+    lane_op: &dyn Fn(&Array<T>) -> Result<Array<R>, ArrayError>, native: &dyn Fn(&[T]) -> Option<Vec<Want<R>>>) -> Verdict {
+    let obs_text = brief_out(observed);
+    let bad = |detail: String| Verdict::Mismatch { observed: obs_text.clone(), detail };
+    if st.outer * st.len * st.inner != vals.len() { return bad("HARNESS: native lane reference and array size differ".into()); }
+    let got: Option<Vec<R>> = match observed {
+        Ok(arr) => {
+            if !consistent(arr) { return bad("result violates shape/length consistency".into()); }
+            if arr.get_shape().unwrap() != st.shape { return bad(format!("shape differs: the native lane reference says {:?}", st.shape)); }
+            let g = arr.get_elements().unwrap();
+            if g.len() != st.n_out() { return bad("element count differs".into()); }
+            Some(g)
+        }
+        Err(_) => None,
+    };
+    let mut visited = 0usize;
+    let mut refused = false;
+    for q in 0..st.lanes() {
+        let lv: Vec<T> = (0..st.len).map(|j| vals[st.pos(q, j)].clone()).collect();
+        let where_ = || format!("lane {q} (leading index {}, trailing index {}) = input positions {}", q / st.inner, q % st.inner, brief(&(0..st.len).map(|j| st.pos(q, j)).collect::<Vec<usize>>()));
+        let lane_arr = Array::new(lv.clone(), vec![lv.len()]).unwrap();
+        let res: Vec<R> = match catch_unwind(AssertUnwindSafe(|| lane_op(&lane_arr))) {
+            Ok(Ok(r)) => r.get_elements().unwrap(),
+            Ok(Err(_)) => { refused = true; if got.is_some() { return bad(format!("1-D operation fails on {}, array operation returned a value", where_())); } continue; }
+            Err(_) => return bad(format!("1-D operation panics on {}", where_())),
+        };
+        let Some(got) = &got else { continue };
+        let nat = native(&lv);
+        for j in 0..(if st.scan { st.len } else { 1 }) {
+            let p = if st.scan { st.pos(q, j) } else { q };
+            if st.out_of(p) != (j, q) { return bad("HARNESS: the two views of the native lane reference disagree".into()); }
+            visited += 1;
+            if j >= res.len() || !res[j].same(&got[p]) {
+                return bad(format!("output position {p}: {}; 1-D operation on that lane gives {} at lane position {j}, array operation returned {}", where_(), res.get(j).map_or("<nothing>".to_string(), |x| x.to_string()), got[p]));
+            }
+            if let Some(w) = nat.as_ref().and_then(|n| n.get(j)) {
+                if !w.agrees(&got[p]) {
+                    return bad(format!("output position {p}: {}, values {}; the operation returned {}, but the independent reference (plain Rust over the lane values) gives {} at lane position {j}", where_(), brief(&lv), got[p], w.show()));
+                }
+            }
+        }
+    }
+    match got {
+        None if refused => Verdict::Match(obs_text),
+        None => bad("the native lane reference gives a value and the 1-D operation succeeds on every lane".into()),
+        Some(g) if visited != g.len() => bad("HARNESS: not every output position was judged".into()),
+        Some(_) => Verdict::Match(obs_text),
+    }
+}
+
+/// two real results, compared in place (bit-identical elements, all NaN alike); `None` = alike
+fn differ<R: Val>(a: &Caught<R>, b: &Caught<R>) -> Option<String> {
+    match (a, b) {
+        (Err(_), Err(_)) => None,
+        (Ok(Err(_)), Ok(Err(_))) => None,
+        (Ok(Ok(x)), Ok(Ok(y))) => {
+            if x.get_shape().unwrap() != y.get_shape().unwrap() { return Some(format!("shapes {:?} and {:?}", x.get_shape().unwrap(), y.get_shape().unwrap())); }
+            let (ex, ey) = (x.get_elements().unwrap(), y.get_elements().unwrap());
+            if ex.len() != ey.len() { return Some("element counts differ".into()); }
+            ex.iter().zip(ey.iter()).position(|(u, v)| !u.same(v)).map(|p| format!("flat position {p}: {} and {}", ex[p], ey[p]))
+        }
+        _ => Some(format!("outcomes `{}` and `{}`", match a { Ok(r) => brief_out(r), Err(_) => "panic".into() }, match b { Ok(r) => brief_out(r), Err(_) => "panic".into() })),
+    }
+}
+
+/// a giant case: the plain call judged in place, then the chained call on `Ok(array)` (the array is MOVED into the Result, no copy is
+/// kept) compared with it in place
+fn run_big<T: Val, R: Val>(a: Array<T>, vals: &[T], st: &Result<Strided, ()>, expected: &str,
+    call: &dyn Fn(&Array<T>) -> Result<Array<R>, ArrayError>, call_ch: &dyn Fn(&Result<Array<T>, ArrayError>) -> Result<Array<R>, ArrayError>,
+    lane_op: &dyn Fn(&Array<T>) -> Result<Array<R>, ArrayError>, native: &dyn Fn(&[T]) -> Option<Vec<Want<R>>>) -> Verdict {
+    let p1: Caught<R> = catch_unwind(AssertUnwindSafe(|| call(&a)));
+    let v = match (&p1, st) {
+        (Ok(r), Ok(st)) => judge_big(vals, r, st, lane_op, native),
+        (Ok(r), Err(())) => compare_default(brief_out(r), expected),
+        (Err(_), _) => compare_default("panic".into(), expected),
+    };
+    if let Verdict::Match(t) = &v {
+        let r: Result<Array<T>, ArrayError> = Ok(a);
+        let ch: Caught<R> = catch_unwind(AssertUnwindSafe(|| call_ch(&r)));
+        if let Some(d) = differ(&p1, &ch) {
+            return Verdict::Mismatch { observed: format!("chained: {}", match &ch { Ok(r) => brief_out(r), Err(_) => "panic".into() }), detail: format!("RECEIVER-DIVERGENCE: the chained call on Ok(array) (impl … for Result<Array<T>, ArrayError>) and the plain call (`{t}`) differ: {d}") };
+        }
+    }
+    v
+}
+
 /// native oracle, value-valued operations: plain Rust over the lane values, nothing of the crate
 fn native_val<T: Val>(op: &str, lane: &[T]) -> Option<Vec<Want<T>>> {
     if lane.is_empty() { return None; }
     if FOLD.contains(&op) || SCAN.contains(&op) {
-        let ints: Vec<i128> = lane.iter().map(|x| x.int()).collect::<Option<Vec<i128>>>()?;     // floats: evaluation order matters, lane oracle only
+        // floats: the evaluation order matters (lane oracle only) unless every partial result is exact in any order
+        let ints: Vec<i128> = match lane.iter().map(|x| x.int()).collect::<Option<Vec<i128>>>() { Some(v) => v, None => return native_float_exact(op, lane) };
         let prod = op.contains("prod");
         let mut acc: i128 = if prod { 1 } else { 0 };
         let run: Vec<i128> = ints.iter().map(|&x| { acc = if prod { acc.checked_mul(x).unwrap_or(i128::MAX) } else { acc + x }; acc }).collect();
@@ -671,6 +946,20 @@ fn native_val<T: Val>(op: &str, lane: &[T]) -> Option<Vec<Want<T>>> {
     let mut best = kept[0];
     for x in &kept[1..] { let o = x.partial_cmp(&best); if (is_max && o == Some(Ordering::Greater)) || (!is_max && o == Some(Ordering::Less)) { best = x; } }
     Some(vec![Want::Is(best.clone())])
+}
+/// native oracle for float sums / products / running totals on lanes of INTEGER-VALUED finite floats whose absolute values add
+/// (multiply) up to at most 2^53 (f32: 2^24): every partial result of any evaluation order is then an integer inside the exactly
+/// representable range, so the exact integer result is the only correct answer (0.0 and -0.0 are not told apart here)
+fn native_float_exact<T: Val>(op: &str, lane: &[T]) -> Option<Vec<Want<T>>> {
+    let lim: f64 = if T::SINGLE { 16777216.0 } else { 9007199254740992.0 };
+    let fl: Vec<f64> = lane.iter().map(|x| x.as_f64()).collect::<Option<Vec<f64>>>()?;
+    if fl.iter().any(|x| !x.is_finite() || x.fract() != 0.0 || x.abs() > lim) { return None; }
+    let prod = op.contains("prod");
+    let mut bound: f64 = if prod { 1.0 } else { 0.0 };
+    for x in &fl { bound = if prod { bound * x.abs().max(1.0) } else { bound + x.abs() }; if bound > lim { return None; } }
+    let mut acc: i128 = if prod { 1 } else { 0 };
+    let run: Vec<i128> = fl.iter().map(|&x| { acc = if prod { acc * x as i128 } else { acc + x as i128 }; acc }).collect();
+    Some(if SCAN.contains(&op) { run.into_iter().map(|v| Want::Is(T::of_f64(v as f64))).collect() } else { vec![Want::Is(T::of_f64(*run.last().unwrap() as f64))] })
 }
 /// native oracle, position / count queries
 fn native_cnt<T: Val>(op: &str, lane: &[T]) -> Option<Vec<Want<usize>>> {
@@ -706,7 +995,7 @@ fn finish<R: Val>(p1: Caught<R>, p2: Option<Caught<R>>, ch: Caught<R>, expected:
     }
     v
 }
-thread_local! { static LAST_PLAIN: RefCell<Option<String>> = RefCell::new(None); }
+thread_local! { static LAST_PLAIN: RefCell<Option<String>> = RefCell::new(None); static CASE_NO: Cell<usize> = Cell::new(0); }
 
 macro_rules! three { ($a:ident, $T:ty, |$x:ident| $e:expr) => {{
     let p1 = catch_unwind(AssertUnwindSafe(|| { let $x = &$a; $e }));
@@ -723,7 +1012,24 @@ macro_rules! probe { ($a:ident, |$x:ident| $e:expr) => {{
 
 /// `map`: the lane map the result is judged by (`None`: the expected outcome is an error / not a lane answer: outcome classes are
 /// compared); `source`: who says so (the model, or the native reference on `ref` cases); `probe`: only run the plain call
-struct Case<'a> { op: &'a str, dt: &'a str, shape: Vec<usize>, axis: Option<isize>, kd: Option<bool>, vseed: u64, expected: &'a str, map: Option<LaneMap>, source: &'a str, probe: bool }
+/// `big`: judge in place by the closed form of the native lane reference (giant cases); `shadow`: after the ordinary judgement
+/// run the in-place judge as well — it must accept what the ordinary path accepted (keeps the giant path honest on small cases)
+struct Case<'a> { op: &'a str, dt: &'a str, shape: Vec<usize>, axis: Option<isize>, kd: Option<bool>, vseed: u64, expected: &'a str, map: Option<LaneMap>, source: &'a str, probe: bool,
+    big: Option<Result<Strided, ()>>, shadow: Option<Strided> }
+thread_local! { static SHADOW_RUNS: Cell<usize> = Cell::new(0); static BIG_RUNS: Cell<usize> = Cell::new(0); }
+/// shadow mode: the in-place judge on an ordinary case that the ordinary judge accepted
+fn shadowed<T: Val, R: Val>(v: Verdict, c: &Case, vals: &[T], call: &dyn Fn() -> Result<Array<R>, ArrayError>,
+    lane_op: &dyn Fn(&Array<T>) -> Result<Array<R>, ArrayError>, native: &dyn Fn(&[T]) -> Option<Vec<Want<R>>>) -> Verdict {
+    let (Verdict::Match(_), Some(st)) = (&v, &c.shadow) else { return v };
+    SHADOW_RUNS.with(|c| c.set(c.get() + 1));
+    match catch_unwind(AssertUnwindSafe(call)) {
+        Ok(r) => match judge_big(vals, &r, st, lane_op, native) {
+            Verdict::Mismatch { observed, detail } => Verdict::Mismatch { observed, detail: format!("HARNESS: the in-place judge of the giant cases rejects a result the ordinary judge accepted: {detail}") },
+            _ => v,
+        },
+        Err(_) => v,
+    }
+}
 
 fn run_any<T: Val>(c: &Case) -> Option<Verdict> {
     let n: usize = c.shape.iter().product();
@@ -732,8 +1038,10 @@ fn run_any<T: Val>(c: &Case) -> Option<Verdict> {
     let (axis, kd, op, expected) = (c.axis, c.kd, c.op, c.expected);
     macro_rules! cnt { ($m:ident, $tr:ident) => {{
         if c.probe { probe!(a, |x| $tr::$m(x, axis, kd)) }
+        if let Some(st) = &c.big { return Some(run_big(a, &vals, st, expected, &|x| $tr::$m(x, axis, kd), &|x| $tr::$m(x, axis, kd), &|l: &Array<T>| $tr::$m(l, None, None), &|lane| native_cnt(op, lane))); }
         let (p1, p2, ch) = three!(a, T, |x| $tr::$m(x, axis, kd));
-        finish(p1, p2, ch, expected, &|r| judge(&vals, r, expected, c.map.as_ref(), c.source, &|l: &Array<T>| $tr::$m(l, None, None), &|lane| native_cnt(op, lane)))
+        let v = finish(p1, p2, ch, expected, &|r| judge(&vals, r, expected, c.map.as_ref(), c.source, &|l: &Array<T>| $tr::$m(l, None, None), &|lane| native_cnt(op, lane)));
+        shadowed(v, c, &vals, &|| $tr::$m(&a, axis, kd), &|l: &Array<T>| $tr::$m(l, None, None), &|lane| native_cnt(op, lane))
     }} }
     Some(match op { "count_nonzero" => cnt!(count_nonzero, ArrayCount), "argmax" => cnt!(argmax, ArraySearch), "argmin" => cnt!(argmin, ArraySearch), _ => return None })
 }
@@ -745,8 +1053,10 @@ fn run_num<T: Val + Numeric>(c: &Case) -> Option<Verdict> {
     let (axis, op, expected) = (c.axis, c.op, c.expected);
     macro_rules! red { ($m:ident) => {{
         if c.probe { probe!(a, |x| ArrayExtrema::$m(x, axis)) }
+        if let Some(st) = &c.big { return Some(run_big(a, &vals, st, expected, &|x| ArrayExtrema::$m(x, axis), &|x| ArrayExtrema::$m(x, axis), &|l: &Array<T>| ArrayExtrema::$m(l, None), &|lane| native_val(op, lane))); }
         let (p1, p2, ch) = three!(a, T, |x| ArrayExtrema::$m(x, axis));
-        finish(p1, p2, ch, expected, &|r| judge(&vals, r, expected, c.map.as_ref(), c.source, &|l: &Array<T>| ArrayExtrema::$m(l, None), &|lane| native_val(op, lane)))
+        let v = finish(p1, p2, ch, expected, &|r| judge(&vals, r, expected, c.map.as_ref(), c.source, &|l: &Array<T>| ArrayExtrema::$m(l, None), &|lane| native_val(op, lane)));
+        shadowed(v, c, &vals, &|| ArrayExtrema::$m(&a, axis), &|l: &Array<T>| ArrayExtrema::$m(l, None), &|lane| native_val(op, lane))
     }} }
     Some(match op { "max" => red!(max), "min" => red!(min), "nanmax" => red!(nanmax), "nanmin" => red!(nanmin), "amax" => red!(amax), "amin" => red!(amin), _ => return None })
 }
@@ -758,8 +1068,10 @@ fn run_ops<T: Val + NumericOps>(c: &Case) -> Option<Verdict> {
     let (axis, op, expected) = (c.axis, c.op, c.expected);
     macro_rules! red { ($m:ident) => {{
         if c.probe { probe!(a, |x| ArraySumProdDiff::$m(x, axis)) }
+        if let Some(st) = &c.big { return Some(run_big(a, &vals, st, expected, &|x| ArraySumProdDiff::$m(x, axis), &|x| ArraySumProdDiff::$m(x, axis), &|l: &Array<T>| ArraySumProdDiff::$m(l, None), &|lane| native_val(op, lane))); }
         let (p1, p2, ch) = three!(a, T, |x| ArraySumProdDiff::$m(x, axis));
-        finish(p1, p2, ch, expected, &|r| judge(&vals, r, expected, c.map.as_ref(), c.source, &|l: &Array<T>| ArraySumProdDiff::$m(l, None), &|lane| native_val(op, lane)))
+        let v = finish(p1, p2, ch, expected, &|r| judge(&vals, r, expected, c.map.as_ref(), c.source, &|l: &Array<T>| ArraySumProdDiff::$m(l, None), &|lane| native_val(op, lane)));
+        shadowed(v, c, &vals, &|| ArraySumProdDiff::$m(&a, axis), &|l: &Array<T>| ArraySumProdDiff::$m(l, None), &|lane| native_val(op, lane))
     }} }
     Some(match op {
         "sum" => red!(sum), "prod" => red!(prod), "nansum" => red!(nansum), "nanprod" => red!(nanprod),
@@ -773,14 +1085,22 @@ fn dispatch(c: &Case) -> Option<Verdict> {
         "i8" => run_ops::<i8>(c), "i16" => run_ops::<i16>(c), "i32" => run_ops::<i32>(c),
         "u64" => run_num::<u64>(c), "usize" => run_num::<usize>(c), "isize" => run_num::<isize>(c),
         "u8" => run_num::<u8>(c), "u16" => run_num::<u16>(c), "u32" => run_num::<u32>(c),
-        "bool" => run_any::<bool>(c), "str" => run_any::<String>(c),
+        "bool" => run_any::<bool>(c), "str" | "strl" => run_any::<String>(c),
+        "i64g" | "i64c" => run_ops::<i64>(c), "f64g" | "f64z" | "f64c" | "f64e" => run_ops::<f64>(c),
+        "t3" => run_any::<T3>(c), "t3b" => run_any::<T3b>(c), "tw" => run_any::<TW>(c),
         _ => None,
     }
 }
+/// the shape of a tag array `i<shape>` without building its elements (giant shapes), other spellings through lib.rs
+fn shape_of(s: &str) -> Vec<usize> {
+    match s.strip_prefix('i') { Some(b) if !b.contains('+') => parse_usize_list(b), _ => parse_arr_raw(s).0 }
+}
+/// cases with more elements than this are judged in place (`run_big`); all of them are `ref` cases
+const BIG_MIN: usize = 500_000;
 struct Parsed<'a> { dt: &'a str, shape: Vec<usize>, axis: Option<isize>, kd: Option<bool>, vseed: u64, by_ref: bool }
 fn parse_case<'a>(op: &str, args: &[&'a str]) -> Option<Parsed<'a>> {
     if args.len() != 5 && !(args.len() == 6 && args[5] == "ref") { return None; }
-    let (shape, _) = parse_arr_raw(args[1]);
+    let shape = shape_of(args[1]);
     let axis: Option<isize> = parse_opt(args[2]);
     let kd: Option<bool> = match args[3] { "none" => None, "true" => Some(true), _ => Some(false) };
     let vseed: u64 = args[4].parse().ok()?;
@@ -792,21 +1112,24 @@ fn mism(observed: &str, detail: String) -> Option<Verdict> { Some(Verdict::Misma
 fn exec(op: &str, args: &[&str], expected: &str) -> Option<Verdict> {
     if op == "refstats" {
         let (v, u, b, aba) = (REF_VALIDATED.with(Cell::get), REF_USED.with(Cell::get), REF_BROKEN.with(Cell::get), ABA_RUNS.with(Cell::get));
-        let text = format!("ok native lane reference: compared with the model on {v} cases of this run ({b} disagreements), used in place of the model on {u} cases; A-B-A re-runs {aba}");
+        let (big, sh) = (BIG_RUNS.with(Cell::get), SHADOW_RUNS.with(Cell::get));
+        let text = format!("ok native lane reference: compared with the model on {v} cases of this run ({b} disagreements), used in place of the model on {u} cases, {big} of them giant (> {BIG_MIN} elements, judged in place; the in-place judge also ran in shadow mode on {sh} ordinary cases); A-B-A re-runs {aba}");
         eprintln!("C08 {}", &text[3..]);
         if expected != "ref" { return None; }
-        return if b > 0 || (u > 0 && v < 1000) { mism(&text, "the native reference was used without (enough) validation against the model in the same run".into()) } else { Some(Verdict::Match(text)) };
+        return if b > 0 || (u > 0 && v < 1000) || (big > 0 && sh < 1000) { mism(&text, "the native reference was used without (enough) validation against the model in the same run".into()) } else { Some(Verdict::Match(text)) };
     }
     let pc = parse_case(op, args)?;
     let fam = family(op);
     let scan = fam == 'S';
-    let native = native_map(&pc.shape, pc.axis, pc.kd, fam);
+    let giant = pc.by_ref && pc.shape.iter().product::<usize>() > BIG_MIN;
+    // (giant cases: the lane map is never written out; the closed form is used below)
+    let native: Option<Result<Option<LaneMap>, ()>> = if giant { native_strided(&pc.shape, pc.axis, pc.kd, fam).map(|r| r.map(|_| None)) } else { native_map(&pc.shape, pc.axis, pc.kd, fam).map(|r| r.map(Some)) };
     // which lane map judges the result
     let (map, source, exp_text): (Option<LaneMap>, &str, String) = if pc.by_ref {
         if expected != "ref" { return None; }
         REF_USED.with(|c| c.set(c.get() + 1));
         match native {
-            Some(Ok(m)) => (Some(m), "the native lane reference", "ok <native lane reference>".to_string()),
+            Some(Ok(m)) => (m, "the native lane reference", "ok <native lane reference>".to_string()),
             Some(Err(())) => (None, "the native lane reference", "err AxisOutOfBounds".to_string()),
             None => return None,
         }
@@ -814,7 +1137,7 @@ fn exec(op: &str, args: &[&str], expected: &str) -> Option<Verdict> {
         let model = if let Some(body) = expected.strip_prefix("ok ") { match parse_lanes(body, scan) { Some(m) => Some(m), None => return mism("n/a", "unparsable model answer".into()) } } else { None };
         // the chain model -> native reference: the reference must reproduce the model's answer on every case it has an opinion on
         if let Some(nat) = &native {
-            let agrees = match (nat, &model) { (Ok(n), Some(m)) => n == m, (Err(()), None) => class_of(expected) == "err", _ => false };
+            let agrees = match (nat, &model) { (Ok(Some(n)), Some(m)) => n == m, (Err(()), None) => class_of(expected) == "err", _ => false };
             REF_VALIDATED.with(|c| c.set(c.get() + 1));
             if !agrees {
                 REF_BROKEN.with(|c| c.set(c.get() + 1));
@@ -823,7 +1146,12 @@ fn exec(op: &str, args: &[&str], expected: &str) -> Option<Verdict> {
         }
         (model, "the model", expected.to_string())
     };
-    let c = Case { op, dt: pc.dt, shape: pc.shape, axis: pc.axis, kd: pc.kd, vseed: pc.vseed, expected: &exp_text, map, source, probe: false };
+    let n_all: usize = pc.shape.iter().product();
+    // giant cases: judged in place by the closed form of the reference; every fourth ordinary case: the in-place judge in shadow mode
+    let big = if pc.by_ref && n_all > BIG_MIN { BIG_RUNS.with(|c| c.set(c.get() + 1)); native_strided(&pc.shape, pc.axis, pc.kd, fam) } else { None };
+    let shadow = if big.is_none() && map.is_some() && n_all <= 20000 && CASE_NO.with(|c| { c.set(c.get() + 1); c.get() % 4 == 0 }) { native_strided(&pc.shape, pc.axis, pc.kd, fam).and_then(Result::ok) } else { None };
+    let map = if big.is_some() { None } else { map };
+    let c = Case { op, dt: pc.dt, shape: pc.shape, axis: pc.axis, kd: pc.kd, vseed: pc.vseed, expected: &exp_text, map, source, probe: false, big, shadow };
     LAST_PLAIN.with(|l| *l.borrow_mut() = None);
     let v = dispatch(&c)?;
     // A-B-A: run the previous case again; it must answer exactly as it did before this case ran
@@ -834,7 +1162,7 @@ fn exec(op: &str, args: &[&str], expected: &str) -> Option<Verdict> {
     if let (Verdict::Match(_), Some((pop, pargs, ptext))) = (&verdict, &prev) {
         let pa: Vec<&str> = pargs.iter().map(String::as_str).collect();
         if let Some(pp) = parse_case(pop, &pa) {
-            let pcase = Case { op: pop, dt: pp.dt, shape: pp.shape, axis: pp.axis, kd: pp.kd, vseed: pp.vseed, expected: "", map: None, source: "", probe: true };
+            let pcase = Case { op: pop, dt: pp.dt, shape: pp.shape, axis: pp.axis, kd: pp.kd, vseed: pp.vseed, expected: "", map: None, source: "", probe: true, big: None, shadow: None };
             ABA_RUNS.with(|c| c.set(c.get() + 1));
             if let Some(Verdict::Match(again)) = dispatch(&pcase) {
                 if &again != ptext {
@@ -851,7 +1179,7 @@ fn exec(op: &str, args: &[&str], expected: &str) -> Option<Verdict> {
 /// non-trivial: an axis is given, the array has rank >= 2 and the lane is longer than one
 fn nontrivial(_op: &str, args: &[&str]) -> bool {
     if args.len() < 5 { return false; }
-    let s = parse_arr_raw(args[1]).0;
+    let s = shape_of(args[1]);
     if args[2] == "none" || s.len() < 2 { return false; }
     let ax: isize = args[2].parse().unwrap_or(0);
     let k = if ax < 0 { ax + s.len() as isize } else { ax };
